@@ -249,11 +249,15 @@ class QuadricTensor(ProjectiveTensor, ABC):
             if self.dim > 2:
                 arr = other.array.reshape(other.shape[: -other.tensor_shape[1]] + (-1, self.dim + 1))
 
+                # each non-zero row of the line matrix is a plane through the line: take the first one that is not
+                # just rounding noise (an entry that should be zero may be 1e-17 for a line returned by another call)
+                row_norm = np.abs(arr).max(axis=-1)
+                nonzero = row_norm > EQ_TOL_ABS * row_norm.max(axis=-1, keepdims=True)
                 if isinstance(other, Line):
-                    i = arr.nonzero()[0][0]
+                    i = nonzero.argmax()
                     m = Plane(arr[i], copy=False).basis_matrix
                 else:
-                    i = np.any(arr, axis=-1).argmax(-1)
+                    i = nonzero.argmax(-1)
                     m = PlaneCollection(arr[(*tuple(np.indices(i.shape)), i)], copy=False).basis_matrix
                 line = other._matrix_transform(m)
                 projected_quadric = QuadricCollection.from_array(matmul(matmul(m, self.array), m, transpose_b=True))
